@@ -914,6 +914,17 @@ def result_ok(ctx):
     return Agg('Option', {}, simp(z3.If(d == BV(0, 64), BV(1, 64), BV(0, 64))), {1: {0: okv}}, ex.si.enums['Option'])
 
 
+@contract(r'^Result::<.*>::err$')
+def result_err(ctx):
+    ex, st = ctx.ex, ctx.st
+    v, _ = to_enum(ex, st, ctx.args[0])
+    errv = payload(ex, st, v, 1, 0, _opt_inner(ctx.dest_ty) if ctx.dest_ty else None)
+    d = v.discr
+    if isinstance(d, int):
+        return mk_option(ex, errv) if d == 1 else mk_option(ex, None)
+    return Agg('Option', {}, simp(z3.If(d == BV(1, 64), BV(1, 64), BV(0, 64))), {1: {0: errv}}, ex.si.enums['Option'])
+
+
 @contract(r'^<Result<.*> as (?:std::ops::)?Try>::branch$')
 def result_branch(ctx):
     ex, st = ctx.ex, ctx.st
